@@ -1,5 +1,5 @@
 // ASSUMED (build_outputs): output positions and parent links are in range
 spec fn nfa_outs_ok<V>(n: NfaBuilder<u8, V>) -> bool {
-    &&& forall|t: int| 0 <= t < n.states@.len() ==> opt_u32((#[trigger] n.states@[t]).output_pos) <= n.outputs@.len()
+    &&& forall|t: int| 0 <= t < n.states@.len() ==> opt_n((#[trigger] n.states@[t]).output_pos) <= n.outputs@.len()
     &&& forall|j: int| 0 <= j < n.outputs@.len() ==> out_parent(#[trigger] n.outputs@[j]) <= j
 }
